@@ -1030,6 +1030,11 @@ theorem coverRun_of_disjoint (nr nc : Nat) : ∀ (gs : List IRect) (m : Mat),
 /-- distinct values of the list differ by more than `ε`. -/
 def Sep (ε : α) (l : List α) : Prop := ∀ a ∈ l, ∀ b ∈ l, a = b ∨ ε < |a - b|
 
+theorem Sep.anti {ε ε' : α} {l : List α} (h : Sep ε' l) (hle : ε ≤ ε') : Sep ε l := fun a ha b hb => by
+  rcases h a ha b hb with e | e
+  · exact Or.inl e
+  · exact Or.inr (lt_of_le_of_lt hle e)
+
 theorem Sep.mono {ε : α} {l l' : List α} (h : Sep ε l) (hsub : ∀ a ∈ l', a ∈ l) : Sep ε l' :=
   fun a ha b hb => h a (hsub a ha) b (hsub b hb)
 
@@ -1205,6 +1210,16 @@ theorem axis_facts (ε : α) (hε : 0 ≤ ε) (vals : List α) (L : α) (hL : 0 
   obtain ⟨i, hi, e⟩ := (mem_iff_at' xs v).mp ((hmem v).mpr hv)
   exact ⟨i, by omega, e⟩
 
+/-- regions that live on their own Hanan grid: positive sizes, inside the die, boundary coordinates separated. -/
+structure GridIn (εd W H : α) (regs : List (Rect α)) : Prop where
+  hW : 0 < W
+  hH : 0 < H
+  hε : 0 ≤ εd
+  pos : ∀ r ∈ regs, 0 < r.w ∧ 0 < r.h
+  inside : ∀ r ∈ regs, 0 ≤ r.xmin ∧ r.xmax ≤ W ∧ 0 ≤ r.ymin ∧ r.ymax ≤ H
+  sepX : Sep εd (boundsX (regs ++ [dieRect W H]))
+  sepY : Sep εd (boundsY (regs ++ [dieRect W H]))
+
 /-- the hypotheses of completeness, on the rectangles that occupy cells. -/
 structure ValidIn (εd W H : α) (regs : List (Rect α)) : Prop where
   hW : 0 < W
@@ -1217,7 +1232,10 @@ structure ValidIn (εd W H : α) (regs : List (Rect α)) : Prop where
   sepY : Sep εd (boundsY (regs ++ [dieRect W H]))
 
 /-- the grid of a valid die: strictly increasing from `0` to `W` (resp. `H`), and every region is a grid box. -/
-theorem grid_facts {εd W H : α} {regs : List (Rect α)} (hv : ValidIn εd W H regs) :
+theorem ValidIn.toGrid {εd W H : α} {regs : List (Rect α)} (hv : ValidIn εd W H regs) : GridIn εd W H regs :=
+  ⟨hv.hW, hv.hH, hv.hε, hv.pos, hv.inside, hv.sepX, hv.sepY⟩
+
+theorem grid_facts {εd W H : α} {regs : List (Rect α)} (hv : GridIn εd W H regs) :
     MonoUpTo (at' (gather εd (regs ++ [dieRect W H])).1) ((gather εd (regs ++ [dieRect W H])).1.length - 1) ∧
     MonoUpTo (at' (gather εd (regs ++ [dieRect W H])).2) ((gather εd (regs ++ [dieRect W H])).2.length - 1) ∧
     at' (gather εd (regs ++ [dieRect W H])).1 0 = 0 ∧
@@ -1330,7 +1348,7 @@ theorem dieCore_complete (ε : Eps α) (inp : DieIn α) (fixed : List (Rect α))
       (∀ r ∈ out.all, 0 ≤ r.xmin ∧ r.xmax ≤ inp.W ∧ 0 ≤ r.ymin ∧ r.ymax ≤ inp.H) ∧
       out.all.Pairwise (fun a b => a.areaOverlap b = 0) ∧
       (out.all.map Rect.area).sum = inp.W * inp.H := by
-  obtain ⟨mx, my, x0, xW, y0, yH, hbox⟩ := grid_facts hv
+  obtain ⟨mx, my, x0, xW, y0, yH, hbox⟩ := grid_facts hv.toGrid
   have hgrid : gather ε.d (occRects inp fixed ++ [dieRect inp.W inp.H]) = gridOf ε inp fixed := rfl
   rw [hgrid] at mx my x0 xW y0 yH hbox
   unfold dieCore
@@ -1460,6 +1478,295 @@ theorem dieCore_complete (ε : Eps α) (inp : DieIn α) (fixed : List (Rect α))
       exact mul_pos hd (lt_max_of_lt_left hv.hW)
   simp only [DieOut.all, hsc, ↓reduceIte]
   exact ⟨_, rfl, rfl, rfl, rfl, rfl, rfl, rfl, hinside, hpair, hsum⟩
+
+/-! ### B.7 overlapping regions: the doubly covered area shows up in the area sum -/
+
+/-- the box of an index rectangle as a sum over its cells. -/
+theorem boxArea_eq_sum (X Y : Nat → α) (nr nc : Nat) (g : IRect) (hw : g.wf nr nc = true) :
+    boxArea X Y g = ∑ r ∈ Finset.range nr, ∑ c ∈ Finset.range nc,
+      if g.contains r c = true then (X (c + 1) - X c) * (Y (r + 1) - Y r) else 0 := by
+  obtain ⟨a1, a2, a3, a4⟩ := (IRect.wf_iff g nr nc).mp hw
+  unfold boxArea
+  rw [← sum_ind_tele X g.cmin g.cmax nc a3 a4, ← sum_ind_tele Y g.rmin g.rmax nr a1 a2, mul_comm, Finset.sum_mul_sum]
+  apply Finset.sum_congr rfl
+  intro r _
+  apply Finset.sum_congr rfl
+  intro c _
+  by_cases h1 : g.rmin ≤ r ∧ r ≤ g.rmax <;> by_cases h2 : g.cmin ≤ c ∧ c ≤ g.cmax
+  · have : g.contains r c = true := (IRect.contains_iff _ _ _).mpr ⟨h1.1, h1.2, h2.1, h2.2⟩
+    simp only [h1, h2, this, and_self, ↓reduceIte]; ring
+  · have : ¬ g.contains r c = true := by rw [IRect.contains_iff]; tauto
+    simp [h1, h2, this]
+  · have : ¬ g.contains r c = true := by rw [IRect.contains_iff]; tauto
+    simp [h1, h2, this]
+  · have : ¬ g.contains r c = true := by rw [IRect.contains_iff]; tauto
+    simp [h1, h2, this]
+
+/-- area of the cells of `g` that are already occupied in `m`. -/
+def covered (X Y : Nat → α) (nr nc : Nat) (m : Mat) (g : IRect) : α :=
+  ∑ r ∈ Finset.range nr, ∑ c ∈ Finset.range nc,
+    if (g.contains r c && m r c) = true then (X (c + 1) - X c) * (Y (r + 1) - Y r) else 0
+
+theorem cellArea_nonneg {X Y : Nat → α} {nr nc : Nat} (hX : MonoUpTo X nc) (hY : MonoUpTo Y nr) {r c : Nat}
+    (hr : r < nr) (hc : c < nc) : 0 ≤ (X (c + 1) - X c) * (Y (r + 1) - Y r) := by
+  have := hX c (c + 1) (by omega) (by omega)
+  have := hY r (r + 1) (by omega) (by omega)
+  apply mul_nonneg <;> linarith
+
+/-- occupying an arbitrary (not necessarily free) index rectangle. -/
+theorem freeArea_occupy_gen (X Y : Nat → α) (nr nc : Nat) (m : Mat) (g : IRect) (hw : g.wf nr nc = true) :
+    freeArea X Y nr nc (occupy m g) = freeArea X Y nr nc m - boxArea X Y g + covered X Y nr nc m g := by
+  rw [boxArea_eq_sum X Y nr nc g hw]
+  unfold freeArea covered
+  rw [← Finset.sum_sub_distrib, ← Finset.sum_add_distrib]
+  apply Finset.sum_congr rfl
+  intro r _
+  rw [← Finset.sum_sub_distrib, ← Finset.sum_add_distrib]
+  apply Finset.sum_congr rfl
+  intro c _
+  simp only [occupy_apply]
+  rcases Bool.eq_false_or_eq_true (g.contains r c) with h1 | h1 <;>
+    rcases Bool.eq_false_or_eq_true (m r c) with h2 | h2 <;> simp [h1, h2]
+
+theorem covered_nonneg {X Y : Nat → α} {nr nc : Nat} (hX : MonoUpTo X nc) (hY : MonoUpTo Y nr) (m : Mat) (g : IRect) :
+    0 ≤ covered X Y nr nc m g := by
+  unfold covered
+  apply Finset.sum_nonneg
+  intro r hr
+  apply Finset.sum_nonneg
+  intro c hc
+  split
+  · exact cellArea_nonneg hX hY (Finset.mem_range.mp hr) (Finset.mem_range.mp hc)
+  · exact le_refl _
+
+theorem covered_mono {X Y : Nat → α} {nr nc : Nat} (hX : MonoUpTo X nc) (hY : MonoUpTo Y nr) (m m' : Mat) (g : IRect)
+    (h : ∀ r c, m r c = true → m' r c = true) : covered X Y nr nc m g ≤ covered X Y nr nc m' g := by
+  unfold covered
+  apply Finset.sum_le_sum
+  intro r hr
+  apply Finset.sum_le_sum
+  intro c hc
+  have hn := cellArea_nonneg hX hY (Finset.mem_range.mp hr) (Finset.mem_range.mp hc)
+  by_cases h1 : (g.contains r c && m r c) = true
+  · have h2 : (g.contains r c && m' r c) = true := by
+      simp only [Bool.and_eq_true] at h1 ⊢; exact ⟨h1.1, h r c h1.2⟩
+    rw [if_pos h1, if_pos h2]
+  · rw [if_neg h1]
+    split
+    · exact hn
+    · exact le_refl _
+
+/-- matrix after marking all the cells of a list of index rectangles. -/
+def paint (m : Mat) (gs : List IRect) : Mat := fun r c => m r c || gs.any fun g => g.contains r c
+
+theorem paint_cons (m : Mat) (g : IRect) (t : List IRect) : paint m (g :: t) = paint (occupy m g) t := by
+  funext r c
+  simp only [paint, occupy_apply, List.any_cons, Bool.or_assoc]
+
+/-- how much the listed boxes' areas exceed the area they occupy together. -/
+def excess (X Y : Nat → α) (nr nc : Nat) (m : Mat) (gs : List IRect) : α :=
+  freeArea X Y nr nc (paint m gs) - freeArea X Y nr nc m + (gs.map (boxArea X Y)).sum
+
+theorem excess_cons (X Y : Nat → α) (nr nc : Nat) (m : Mat) (g : IRect) (t : List IRect) (hw : g.wf nr nc = true) :
+    excess X Y nr nc m (g :: t) = covered X Y nr nc m g + excess X Y nr nc (occupy m g) t := by
+  unfold excess
+  rw [paint_cons, freeArea_occupy_gen X Y nr nc m g hw, List.map_cons, List.sum_cons]
+  ring
+
+theorem excess_nonneg {X Y : Nat → α} {nr nc : Nat} (hX : MonoUpTo X nc) (hY : MonoUpTo Y nr) :
+    ∀ (gs : List IRect) (m : Mat), (∀ g ∈ gs, g.wf nr nc = true) → 0 ≤ excess X Y nr nc m gs := by
+  intro gs
+  induction gs with
+  | nil =>
+    intro m _
+    have : paint m [] = m := by funext r c; simp [paint]
+    simp [excess, this]
+  | cons g t ih =>
+    intro m hw
+    rw [excess_cons X Y nr nc m g t (hw g List.mem_cons_self)]
+    have := covered_nonneg hX hY m g
+    have := ih (occupy m g) (fun x hx => hw x (List.mem_cons_of_mem _ hx))
+    linarith
+
+theorem excess_ge_covered {X Y : Nat → α} {nr nc : Nat} (hX : MonoUpTo X nc) (hY : MonoUpTo Y nr) :
+    ∀ (gs : List IRect) (m : Mat) (h : IRect), (∀ g ∈ gs, g.wf nr nc = true) → h ∈ gs →
+      covered X Y nr nc m h ≤ excess X Y nr nc m gs := by
+  intro gs
+  induction gs with
+  | nil => intro m h _ hh; cases hh
+  | cons g t ih =>
+    intro m h hw hh
+    rw [excess_cons X Y nr nc m g t (hw g List.mem_cons_self)]
+    have hw' : ∀ x ∈ t, x.wf nr nc = true := fun x hx => hw x (List.mem_cons_of_mem _ hx)
+    rcases List.mem_cons.mp hh with rfl | hh
+    · have := excess_nonneg hX hY t (occupy m h) hw'
+      linarith
+    · have h1 := ih (occupy m g) h hw' hh
+      have h2 := covered_mono hX hY m (occupy m g) h (fun r c hm => by simp [hm])
+      have := covered_nonneg hX hY m g
+      linarith
+
+open Finset in
+/-- 1-D: the cells common to two index intervals add up to the overlap length of the two spans. -/
+theorem sum_ind2_tele {Z : Nat → α} {n : Nat} (hZ : MonoUpTo Z n) (a b a' b' : Nat) (hab : a ≤ b) (hb : b < n)
+    (hab' : a' ≤ b') (hb' : b' < n) :
+    ∑ i ∈ range n, (if (a ≤ i ∧ i ≤ b) ∧ (a' ≤ i ∧ i ≤ b') then Z (i + 1) - Z i else 0) =
+      ovLen (Z a) (Z (b + 1)) (Z a') (Z (b' + 1)) := by
+  have hmin : min (Z (b + 1)) (Z (b' + 1)) = Z (min b b' + 1) := by
+    rcases le_total b b' with h | h
+    · rw [min_eq_left h, min_eq_left (hZ.le (by omega) (by omega))]
+    · rw [min_eq_right h, min_eq_right (hZ.le (by omega) (by omega))]
+  have hmax : max (Z a) (Z a') = Z (max a a') := by
+    rcases le_total a a' with h | h
+    · rw [max_eq_right h, max_eq_right (hZ.le h (by omega))]
+    · rw [max_eq_left h, max_eq_left (hZ.le h (by omega))]
+  unfold ovLen
+  rw [hmin, hmax]
+  by_cases hne : max a a' ≤ min b b'
+  · have hcongr : ∀ i ∈ range n, (if (a ≤ i ∧ i ≤ b) ∧ (a' ≤ i ∧ i ≤ b') then Z (i + 1) - Z i else 0) =
+        (if max a a' ≤ i ∧ i ≤ min b b' then Z (i + 1) - Z i else 0) := by
+      intro i _
+      have : ((a ≤ i ∧ i ≤ b) ∧ (a' ≤ i ∧ i ≤ b')) ↔ (max a a' ≤ i ∧ i ≤ min b b') := by omega
+      simp only [this]
+    rw [Finset.sum_congr rfl hcongr, sum_ind_tele Z (max a a') (min b b') n hne (by omega)]
+    have := hZ (max a a') (min b b' + 1) (by omega) (by omega)
+    rw [max_eq_right (a := (0 : α)) (b := Z (min b b' + 1) - Z (max a a')) (by linarith)]
+  · have hcongr : ∀ i ∈ range n, (if (a ≤ i ∧ i ≤ b) ∧ (a' ≤ i ∧ i ≤ b') then Z (i + 1) - Z i else 0) = 0 := by
+      intro i _
+      have : ¬ ((a ≤ i ∧ i ≤ b) ∧ (a' ≤ i ∧ i ≤ b')) := by omega
+      simp only [this, ↓reduceIte]
+    rw [Finset.sum_congr rfl hcongr, Finset.sum_const_zero]
+    have := hZ.le (show min b b' + 1 ≤ max a a' by omega) (by omega)
+    rw [max_eq_left (a := (0 : α)) (b := Z (min b b' + 1) - Z (max a a')) (by linarith)]
+
+/-- occupying `g` covers at least the common area of the boxes of `g` and `h`. -/
+theorem covered_occupy_ge_overlap {X Y : Nat → α} {nr nc : Nat} (hX : MonoUpTo X nc) (hY : MonoUpTo Y nr)
+    {R S : Rect α} {g h : IRect} (hR : IsGridBox X Y R g) (hS : IsGridBox X Y S h)
+    (hg : g.wf nr nc = true) (hh : h.wf nr nc = true) (m : Mat) :
+    R.areaOverlap S ≤ covered X Y nr nc (occupy m g) h := by
+  obtain ⟨a1, a2, a3, a4⟩ := (IRect.wf_iff g nr nc).mp hg
+  obtain ⟨b1, b2, b3, b4⟩ := (IRect.wf_iff h nr nc).mp hh
+  obtain ⟨r1, r2, r3, r4⟩ := hR
+  obtain ⟨s1, s2, s3, s4⟩ := hS
+  rw [areaOverlap_eq, r1, r2, r3, r4, s1, s2, s3, s4,
+    ← sum_ind2_tele hX g.cmin g.cmax h.cmin h.cmax a3 a4 b3 b4,
+    ← sum_ind2_tele hY g.rmin g.rmax h.rmin h.rmax a1 a2 b1 b2, mul_comm, Finset.sum_mul_sum]
+  unfold covered
+  apply Finset.sum_le_sum
+  intro r hr
+  apply Finset.sum_le_sum
+  intro c hc
+  have hn := cellArea_nonneg hX hY (Finset.mem_range.mp hr) (Finset.mem_range.mp hc)
+  by_cases hboth : ((g.rmin ≤ r ∧ r ≤ g.rmax) ∧ (h.rmin ≤ r ∧ r ≤ h.rmax)) ∧ ((g.cmin ≤ c ∧ c ≤ g.cmax) ∧ (h.cmin ≤ c ∧ c ≤ h.cmax))
+  · have e1 : g.contains r c = true := (IRect.contains_iff _ _ _).mpr ⟨hboth.1.1.1, hboth.1.1.2, hboth.2.1.1, hboth.2.1.2⟩
+    have e2 : h.contains r c = true := (IRect.contains_iff _ _ _).mpr ⟨hboth.1.2.1, hboth.1.2.2, hboth.2.2.1, hboth.2.2.2⟩
+    simp only [hboth.1, hboth.2, and_self, ↓reduceIte, occupy_apply, e1, e2, Bool.or_true, Bool.and_self]
+    linarith [mul_comm (Y (r + 1) - Y r) (X (c + 1) - X c)]
+  · have : (if (g.rmin ≤ r ∧ r ≤ g.rmax) ∧ (h.rmin ≤ r ∧ r ≤ h.rmax) then Y (r + 1) - Y r else 0) *
+        (if (g.cmin ≤ c ∧ c ≤ g.cmax) ∧ (h.cmin ≤ c ∧ c ≤ h.cmax) then X (c + 1) - X c else 0) = 0 := by
+      by_cases p1 : (g.rmin ≤ r ∧ r ≤ g.rmax) ∧ (h.rmin ≤ r ∧ r ≤ h.rmax)
+      · have p2 : ¬ ((g.cmin ≤ c ∧ c ≤ g.cmax) ∧ (h.cmin ≤ c ∧ c ≤ h.cmax)) := fun p2 => hboth ⟨p1, p2⟩
+        rw [if_neg p2, mul_zero]
+      · rw [if_neg p1, zero_mul]
+    rw [this]
+    split
+    · exact hn
+    · exact le_refl _
+
+/-- two listed regions with common area `≥ a` make the excess at least `a`. -/
+theorem excess_ge_overlap {X Y : Nat → α} {nr nc : Nat} (hX : MonoUpTo X nc) (hY : MonoUpTo Y nr) (a : α) :
+    ∀ {regs : List (Rect α)} {gs : List IRect},
+      List.Forall₂ (fun (r : Rect α) (g : IRect) => g.wf nr nc = true ∧ IsGridBox X Y r g) regs gs →
+      ¬ regs.Pairwise (fun x y => x.areaOverlap y < a) → ∀ m : Mat, a ≤ excess X Y nr nc m gs := by
+  intro regs gs h
+  induction h with
+  | nil => intro hn; exact absurd List.Pairwise.nil hn
+  | @cons x g xs t h1 h2 ih =>
+    intro hn m
+    have hwt : ∀ y ∈ t, y.wf nr nc = true := fun y hy => by
+      obtain ⟨r, _, hr⟩ := forall2_mem_right h2 y hy; exact hr.1
+    rw [excess_cons X Y nr nc m g t h1.1]
+    have hc := covered_nonneg hX hY m g
+    by_cases hp : xs.Pairwise (fun x y => x.areaOverlap y < a)
+    · have : ¬ ∀ y ∈ xs, x.areaOverlap y < a := fun hall => hn (List.pairwise_cons.mpr ⟨hall, hp⟩)
+      push Not at this
+      obtain ⟨y, hy, hya⟩ := this
+      obtain ⟨gy, hgy, hPy⟩ : ∃ gy ∈ t, gy.wf nr nc = true ∧ IsGridBox X Y y gy := by
+        clear ih hn hp hwt
+        induction h2 with
+        | nil => cases hy
+        | cons q1 _ ih2 =>
+          rcases List.mem_cons.mp hy with rfl | hy
+          · exact ⟨_, List.mem_cons_self, q1⟩
+          · obtain ⟨k, hk, hP⟩ := ih2 hy
+            exact ⟨k, List.mem_cons_of_mem _ hk, hP⟩
+      have e1 := covered_occupy_ge_overlap hX hY h1.2 hPy.2 h1.1 hPy.1 m
+      have e2 := excess_ge_covered hX hY t (occupy m g) gy hwt hgy
+      linarith
+    · have := ih hp (occupy m g)
+      linarith
+
+/-- regions on their Hanan grid two of which have common area at least the area-sum tolerance: the area-sum test of
+    the self-check fails whatever the picks (the sum exceeds `W·H` by at least that common area). -/
+theorem dieCore_rejects_excess (ε : Eps α) (inp : DieIn α) (fixed : List (Rect α))
+    (hgi : GridIn ε.d inp.W inp.H (occRects inp fixed))
+    (hov : ¬ (occRects inp fixed).Pairwise (fun x y => x.areaOverlap y < ε.die * max inp.W inp.H))
+    (picks : List IRect) : ∃ err, dieCore ε inp fixed picks = .error err := by
+  cases hres : dieCore ε inp fixed picks with
+  | error err => exact ⟨err, rfl⟩
+  | ok out =>
+    exfalso
+    obtain ⟨hacc, hgr, e1, e2, e3, e4, e5, hsc⟩ := dieCore_ok ε inp fixed picks out hres
+    obtain ⟨mx, my, x0, xW, y0, yH, hbox⟩ := grid_facts hgi
+    have hgrid : gather ε.d (occRects inp fixed ++ [dieRect inp.W inp.H]) = gridOf ε inp fixed := rfl
+    rw [hgrid] at mx my x0 xW y0 yH hbox
+    generalize (gridOf ε inp fixed).1 = xs at *
+    generalize (gridOf ε inp fixed).2 = ys at *
+    generalize hnr : ys.length - 1 = nr at *
+    generalize hnc : xs.length - 1 = nc at *
+    obtain ⟨gs, hgs⟩ := exists_forall2 (P := fun (r : Rect α) (g : IRect) => g.wf nr nc = true ∧ IsGridBox (at' xs) (at' ys) r g)
+      (occRects inp fixed) hbox
+    have hocc : ∀ r c, r < nr → c < nc → occ xs ys (occRects inp fixed) r c = gs.any fun g => g.contains r c := by
+      intro r c hr hc
+      unfold occ
+      exact forall2_any_eq hgs (fun a b hab => gridBox_pointInside mx my hab.2 hab.1 r c hr hc)
+    have hex := excess_ge_overlap mx my (ε.die * max inp.W inp.H) hgs hov (fun _ _ => false)
+    unfold excess at hex
+    rw [freeArea_empty, x0, y0, xW, yH, sub_zero, sub_zero,
+      ← forall2_map_eq (f := Rect.area) hgs (fun a b hab => gridBox_area hab.2),
+      ← freeArea_congr _ _ nr nc (occ xs ys (occRects inp fixed)) (paint (fun _ _ => false) gs)
+        (fun r c hr hc => by rw [hocc r c hr hc]; simp [paint])] at hex
+    -- the picks consume exactly the free area
+    unfold coverAccept at hacc
+    split at hacc
+    swap
+    · cases hacc
+    rename_i m' hrun
+    have hfa2 := freeArea_run (at' xs) (at' ys) nr nc picks _ m' hrun
+    rw [freeArea_full _ _ nr nc m' hacc] at hfa2
+    have hground : picks.map (pickRect xs ys) = out.ground := by
+      have := forall2_map_eq (f := pickRect xs ys) (g := fun r : Rect α => r) hgr
+        (fun p r hpr => ((mkGround_ok xs ys p r hpr).1).symm)
+      simpa using this
+    have e6 : (out.ground.map Rect.area) = picks.map (boxArea (at' xs) (at' ys)) := by
+      rw [← hground, List.map_map]
+      apply List.map_congr_left
+      intro p _
+      exact gridBox_area (pickRect_isGridBox xs ys p)
+    obtain ⟨_, _, s3⟩ := (selfCheck_iff _ _ _ _).mp hsc
+    simp only [DieOut.all, e3, e4, e5, List.map_append, List.sum_append, e6] at s3
+    have hsum : ((occRects inp fixed).map Rect.area).sum =
+        ((specOf inp).map Rect.area).sum + ((blockOf inp).map Rect.area).sum + (fixed.map Rect.area).sum := by
+      simp only [occRects, List.map_append, List.sum_append]
+    rw [hsum] at hex
+    have hpos : 0 ≤ ε.die * max inp.W inp.H := by
+      have := excess_nonneg mx my gs (fun _ _ => false) (fun g hg => by
+        obtain ⟨r, _, hr⟩ := forall2_mem_right hgs g hg; exact hr.1)
+      by_contra hc
+      push Not at hc
+      exact absurd s3 (not_lt.mpr (le_trans (le_of_lt hc) (abs_nonneg _)))
+    rw [abs_lt] at s3
+    linarith [s3.2]
 
 /-! ### B.6 the deterministic instance is an instance of the relation -/
 
